@@ -54,4 +54,15 @@ func genC15(o *Out) {
 	}
 	o.str("finalSaveCond", cond)
 	o.boolean("prefSavesPrevious", prefSaves)
+	// saveImporters: the one-importer branch returns the merge step's error; the merge loop runs every merge
+	single, loop := false, false
+	if sd := f.Func("", "saveImporters"); sd != nil {
+		src := normSpace(f.Src(sd.Body))
+		single = strings.Contains(src, "case len(ims) < 2: deferred, err := ims[0].Save(ctx) if err != nil { _ = cancelImporters(ctx, ims) return err } if err := deferred(ctx); err != nil { _ = cancelImporters(ctx, ims) return err }")
+		loop = strings.Contains(src, "for i := range deferreds { if err := deferreds[i](ctx); err != nil { _ = cancelImporters(ctx, ims) return err } }")
+	} else {
+		o.errf("saveImporters not found")
+	}
+	o.boolean("singleBranchReturnsMergeError", single)
+	o.boolean("mergeLoopIgnoresContext", loop)
 }
